@@ -16,15 +16,15 @@ THEOREMS = [
     "Props_C11.C11_block_write_read", "Props_C11.C11_block_size", "Props_C11.C11_block_read_write_read",
     "Props_C11.C11_write_blocks_read_blocks", "Props_C11.C11_read_blocks_write_blocks",
     "Props_C11.C11_rules_refused", "Props_C11.C11_sizes_refused", "Props_C11.C11_write_never_panics",
-    "Props_C11.C11_refuted", "Props_C11.C11_outside_known",
+    "Props_C11.C11_refuted", "Props_C11.C11_outside_known", "Props_C11.C11_utf8_std_ok", "Props_C11.C11_nonvacuous",
 ]
-FILES = ["Bytes.v", "Bytes_proofs.v", "Blocks.v", "BlockList.v", "Blocks_proofs.v", "BlockList_proofs.v", "Props_C11.v", "Pins.v"]
+FILES = ["Bytes.v", "Bytes_proofs.v", "Blocks.v", "BlockList.v", "Utf8.v", "Utf8_proofs.v", "Blocks_proofs.v", "Cue_proofs.v", "Blocks_proofs2.v", "Blocks_level.v", "BlockList_proofs.v", "GenMeta_check.v", "Props_C11.v", "Pins.v"]
 
 
 def run(chk):
     chk.assumptions = [
         "the Coq model (coq/metadata/Blocks.v, BlockList.v) mirrors src/metadata/mod.rs and cuesheet.rs function by function; this is checked by running the extracted model and the implementation on the same cases (both profiles), not proved",
-        "UTF-8 validity (String::from_utf8) is a Section variable of the theorems; the instance used when the model is run (Utf8.v) is tied to std by the comment/picture string cases",
+        "UTF-8 validity (String::from_utf8) is a universally quantified predicate of the theorems, assumed only to accept ASCII (used for the ISRC field); the instance used when the model is run (Utf8.v, proved to accept ASCII) is tied to std by the comment/picture string cases",
         "the counting sink of bitstream-io (BitsWritten<BlockBits>) is modelled by body_size (field widths added up with the same value checks); the theorem C11_block_size relates it to the bytes written; the tie to the real counter is by the size observations of every case",
         "usize is 64 bits",
     ]
